@@ -183,10 +183,47 @@ impl Mirror {
     }
 }
 
+/// mirror update + model step of SET/REMOVE items on one node
+fn apply_props(m: &mut Mirror, il: u8, ik: u8, id: u32, items: &[(u8, Val, bool)]) -> String {
+    let node = &mut m.nodes[id as usize];
+    let old = node.props.get(&ik).cloned();
+    let mut fin: Option<Val> = None;
+    for (k, v, _) in items {
+        if *k == ik {
+            fin = Some(v.clone());
+        }
+        if *v == Val::Null {
+            node.props.remove(k);
+        } else {
+            node.props.insert(*k, v.clone());
+        }
+    }
+    if let (Some(ix), true) = (m.index.as_mut(), node.first == Some(il)) {
+        match fin {
+            None => {}
+            Some(Val::Null) => {
+                if let Some(o) = old {
+                    Mirror::idx_del(ix, &(o.enc(), id));
+                }
+            }
+            Some(v) => {
+                if let Some(o) = old {
+                    Mirror::idx_del(ix, &(o.enc(), id));
+                }
+                ix.insert(0, (v.enc(), id));
+            }
+        }
+    }
+    format!("OProps {} {}", coq_n(id as u128), coq_list(items, |(k, v, _)| format!("({}, {})", coq_n(*k as u128), v.coq())))
+}
+
 #[derive(Clone, Debug)]
 enum Op {
     Create(Vec<u8>, Vec<(u8, Val)>),
     Props(u32, Vec<(u8, Val, bool)>), // (key, value, as REMOVE clause)
+    /// the same items on every live node with the label (None: on every live node), ONE statement and
+    /// transaction; the model sees one OProps per node (index entries are independent per node)
+    PropsMany(Option<u8>, Vec<(u8, Val, bool)>),
     AddLabel(u32, u8),
     RemoveLabel(u32, u8),
     Delete(u32),
@@ -374,7 +411,11 @@ fn run_history(idx: usize, cx: &mut Ctx, script: Option<Vec<Op>>, il: u8, ik: u8
                         if as_remove { (k, Val::Null, true) } else { (k, gen_val(r, true), false) }
                     })
                     .collect();
-                Op::Props(id, items)
+                if r.chance(1, 4) {
+                    Op::PropsMany(if r.chance(2, 3) { Some(if r.chance(2, 3) { il } else { r.below(3) as u8 }) } else { None }, items)
+                } else {
+                    Op::Props(id, items)
+                }
             } else if w < 62 {
                 Op::AddLabel(*r.pick(&live), if r.chance(1, 2) { il } else { r.below(3) as u8 })
             } else if w < 68 {
@@ -393,6 +434,7 @@ fn run_history(idx: usize, cx: &mut Ctx, script: Option<Vec<Op>>, il: u8, ik: u8
         // ---- run it on both databases, update the mirror as the model would
         let mut stmt_log = json!(format!("{:?}", op));
         let mut model_op: Option<String> = None;
+        let mut extra_ops: Vec<String> = vec![];
         let res: Result<(), String> = (|| {
             match &op {
                 Op::Create(labels, ps) => {
@@ -447,10 +489,19 @@ fn run_history(idx: usize, cx: &mut Ctx, script: Option<Vec<Op>>, il: u8, ik: u8
                         coq_list(&props.iter().collect::<Vec<_>>(), |(k, v)| format!("({}, {})", coq_n(**k as u128), v.coq()))
                     ));
                 }
-                Op::Props(id, items) => {
+                Op::Props(..) | Op::PropsMany(..) => {
                     let mut params = Params::new();
-                    params.insert("id", Value::Int(*id as i64));
-                    let mut q = String::from("MATCH (n) WHERE id(n) = $id");
+                    let (mut q, items, targets): (String, &Vec<(u8, Val, bool)>, Vec<u32>) = match &op {
+                        Op::Props(id, items) => {
+                            params.insert("id", Value::Int(*id as i64));
+                            (String::from("MATCH (n) WHERE id(n) = $id"), items, vec![*id])
+                        }
+                        Op::PropsMany(l, items) => {
+                            let t: Vec<u32> = m.nodes.iter().enumerate().filter(|(_, n)| !n.deleted && l.map(|l| n.labels.contains(&l)).unwrap_or(true)).map(|(i, _)| i as u32).collect();
+                            (match l { Some(l) => format!("MATCH (n:{})", LABELS[*l as usize]), None => String::from("MATCH (n)") }, items, t)
+                        }
+                        _ => unreachable!(),
+                    };
                     let mut prev_set = false;
                     for (j, (k, v, as_remove)) in items.iter().enumerate() {
                         if *as_remove {
@@ -473,40 +524,13 @@ fn run_history(idx: usize, cx: &mut Ctx, script: Option<Vec<Op>>, il: u8, ik: u8
                     for db in pair.dbs() {
                         write_stmt(db, &q, &params)?;
                     }
-                    let node = &mut m.nodes[*id as usize];
-                    let old = node.props.get(&ik).cloned();
-                    let mut fin: Option<Val> = None;
-                    for (k, v, _) in items {
-                        if *k == ik {
-                            fin = Some(v.clone());
-                        }
-                        if *v == Val::Null {
-                            node.props.remove(k);
-                        } else {
-                            node.props.insert(*k, v.clone());
-                        }
+                    let mut ops: Vec<String> = targets.iter().map(|id| apply_props(&mut m, il, ik, *id, items)).collect();
+                    if ops.is_empty() {
+                        model_op = Some("OCompact".into()); // no target: no effect on the abstract state
+                    } else {
+                        model_op = Some(ops.remove(0));
+                        extra_ops = ops;
                     }
-                    if let (Some(ix), true) = (m.index.as_mut(), node.first == Some(il)) {
-                        match fin {
-                            None => {}
-                            Some(Val::Null) => {
-                                if let Some(o) = old {
-                                    Mirror::idx_del(ix, &(o.enc(), *id));
-                                }
-                            }
-                            Some(v) => {
-                                if let Some(o) = old {
-                                    Mirror::idx_del(ix, &(o.enc(), *id));
-                                }
-                                ix.insert(0, (v.enc(), *id));
-                            }
-                        }
-                    }
-                    model_op = Some(format!(
-                        "OProps {} {}",
-                        coq_n(*id as u128),
-                        coq_list(items, |(k, v, _)| format!("({}, {})", coq_n(*k as u128), v.coq()))
-                    ));
                 }
                 Op::AddLabel(id, l) | Op::RemoveLabel(id, l) => {
                     let add = matches!(op, Op::AddLabel(..));
@@ -573,6 +597,9 @@ fn run_history(idx: usize, cx: &mut Ctx, script: Option<Vec<Op>>, il: u8, ik: u8
         }
         log.push(stmt_log);
         steps.push(format!("SOp ({})", model_op.unwrap()));
+        for o in extra_ops {
+            steps.push(format!("SOp ({})", o));
+        }
 
         // ---- the store must be the same on both databases and equal to the abstract store
         let n = m.nodes.len();
@@ -787,6 +814,9 @@ fn corpus() -> Vec<(u8, u8, Vec<Op>)> {
         (0, 1, vec![Op::CreateIndex, Op::Create(vec![0], vec![(1, i(1))]), Op::Create(vec![1, 0], vec![(1, i(1))]), Op::Create(vec![1], vec![(1, i(1))]), Op::AddLabel(2, 0)]),
         // ±0 (fixed by 651a96c, C27)
         (0, 1, vec![Op::CreateIndex, Op::Create(vec![0], vec![(1, Val::Float(0))]), Op::Create(vec![0], vec![(1, Val::Float(1 << 63))])]),
+        // one statement updating several indexed nodes to one value and away again
+        (0, 1, vec![Op::CreateIndex, Op::Create(vec![0], vec![(1, i(1))]), Op::Create(vec![0], vec![(1, i(2))]), Op::Create(vec![0, 1], vec![(1, i(3))]),
+                    Op::PropsMany(Some(0), vec![(1, i(7), false)]), Op::PropsMany(None, vec![(1, i(1), false), (2, i(0), false)]), Op::PropsMany(Some(1), vec![(1, Val::Null, true)])]),
         // removal, re-set, compaction, reopen
         (0, 1, vec![Op::CreateIndex, Op::Create(vec![0], vec![(1, i(1)), (0, i(7))]), Op::Create(vec![0], vec![(1, i(1))]), Op::Props(0, vec![(1, Val::Null, true)]),
                     Op::Compact, Op::Props(0, vec![(1, i(1), false), (1, i(2), false)]), Op::Reopen, Op::Props(1, vec![(1, Val::Null, false)])]),
